@@ -100,8 +100,21 @@ def vocab_lookup(call, vocab=VOCAB):
     return None
 
 
+class Link:
+    """one step of a call chain: the Call plus the parameter bindings of the function that contains it; behaves like
+    the Call for every other purpose"""
+    __slots__ = ('call', 'mapping')
+
+    def __init__(self, call, mapping):
+        self.call = call
+        self.mapping = mapping
+
+    def __getattr__(self, name):
+        return getattr(self.call, name)
+
+
 class Eff:
-    __slots__ = ('kind', 'path', 'call', 'chain', 'must', 'forall', 'args', 'level', 'level_bb', 'mapping')
+    __slots__ = ('kind', 'path', 'call', 'chain', 'must', 'forall', 'args', 'level', 'level_bb', 'mapping', 'implied')
 
     def __init__(self, kind, path, call, chain, must, forall=None, args=None):
         self.kind = kind
@@ -113,6 +126,7 @@ class Eff:
         self.args = args        # all argument values
         self.level = None       # set by outcomes(): index of the site chain level the effect belongs to
         self.level_bb = None    # block of the call (in that level's function) it was expanded from
+        self.implied = ()       # payloads that exist whenever the effect runs (closure run by Option/Result combinators)
         self.mapping = None     # parameter bindings of the function containing `call` (values in entry terms)
 
     def where(self):
@@ -385,6 +399,20 @@ class Effects:
                 return
         self._expand_call1(fn, c, forall, mode, mapping, chain, stack, out)
 
+    WRITERS = ('std::io::Write::write_all', 'std::io::Write::write')
+
+    def _written_to(self, fn, create_call):
+        """value handed to the single write_all on the file handle produced by create_call (same function), or None"""
+        site = (fn.path, create_call.bb)
+        found = []
+        for wc in fn.calls:
+            if wc.indirect or wc.decl not in self.WRITERS or len(wc.args) < 2:
+                continue
+            recv = self.slicer.operand(fn, wc.args[0])
+            if any(x[0] == 'call' and len(x) == 4 and x[3] == site for x in walk(recv)):
+                found.append(self.slicer.operand(fn, wc.args[1]))
+        return found[0] if len(found) == 1 else None
+
     def _closure_fn(self, v):
         if isinstance(v, tuple) and v and v[0] in ('closure', 'fnitem'):
             g = self.prog.fns.get(v[1])
@@ -392,7 +420,7 @@ class Effects:
                 return g, (1 if v[0] == 'closure' else 0)
         return None, 0
 
-    def _expand_closure(self, fn, c, clv, bind, forall, mode, mapping, chain, stack, out):
+    def _expand_closure(self, fn, c, clv, bind, forall, mode, mapping, chain, stack, out, implied=None):
         """run closure value clv (in fn's terms) with its parameters bound to `bind` (list of values in fn's terms)"""
         g, off = self._closure_fn(clv)
         if g is None:
@@ -402,11 +430,14 @@ class Effects:
         for i, b in enumerate(bind):
             if b is not None:
                 m[(g.path, off + i)] = self.subst(b, mapping)
-        sub = self.expand(g, mode, None, m, chain + (c,), stack)
+        sub = self.expand(g, mode, None, m, chain + (Link(c, mapping),), stack)
         fa = self.subst(forall, mapping) if forall is not None else None
+        imp = self.subst(implied, mapping) if implied is not None else None
         for e in sub:
             if e.forall is None and fa is not None:
                 e.forall = fa
+            if imp is not None:
+                e.implied = e.implied + (imp,)
         out.extend(sub)
 
     def _expand_iter(self, fn, c, forall, mode, mapping, chain, stack, out):
@@ -472,6 +503,11 @@ class Effects:
             kind, pidx = ve
             args = tuple(self.subst(self.slicer.operand(fn, a), mapping) for a in c.args)
             path = args[pidx] if pidx is not None and pidx < len(args) else None
+            if c.is_('std::fs::File::create', 'std::fs::File::create_new') and len(args) == 1:
+                # `File::create(p)?.write_all(data)` is `fs::write(p, data)`: attach the data written to that handle
+                data = self._written_to(fn, c)
+                if data is not None:
+                    args = args + (self.subst(data, mapping),)
             fa = self.subst(forall, mapping) if forall is not None else None
             ef = Eff(kind, path, c, chain, mode == 'must', fa, args)
             ef.mapping = mapping
@@ -480,7 +516,7 @@ class Effects:
         callees = self.prog.callee_fns(c)
         for g in callees:
             m = self.call_mapping(fn, c, g, mapping)
-            sub = self.expand(g, mode, None, m, chain + (c,), stack)
+            sub = self.expand(g, mode, None, m, chain + (Link(c, mapping),), stack)
             if forall is not None:
                 for e in sub:
                     if e.forall is None:
@@ -501,9 +537,9 @@ class Effects:
                     g, off = self._closure_fn(clv)
                     if g is not None and g in gs:
                         gs = [x for x in gs if x is not g]
-                        self._expand_closure(fn, c, clv, [b] if (b is not None and g.argc > off) else [], forall, 'may', mapping, chain, stack, out)
+                        self._expand_closure(fn, c, clv, [b] if (b is not None and g.argc > off) else [], forall, 'may', mapping, chain, stack, out, implied=b)
                 for g in gs:
-                    out.extend(self.expand(g, 'may', None, mapping, chain + (c,), stack))
+                    out.extend(self.expand(g, 'may', None, mapping, chain + (Link(c, mapping),), stack))
 
     # ---- returned values -------------------------------------------------------------------------
     def returned(self, fn, site, mapping=None, _stack=()):
@@ -597,7 +633,7 @@ def outcomes(E, fn, mapping=None, chain=(), stack=()):
                         res.append(Outcome(('recursion', g.path), must, may, conds, (site,)))
                         continue
                     m = E.call_mapping(fn, site.call, g, mapping)
-                    for sub in outcomes(E, g, m, chain + (site.call,), stack + (fn.path,)):
+                    for sub in outcomes(E, g, m, chain + (Link(site.call, mapping),), stack + (fn.path,)):
                         res.append(Outcome(sub.value, must + sub.must, may + sub.may, conds + sub.conds, (site,) + sub.sites))
                 continue
             v = E.subst(E.slicer._call_value(fn, site.call, set(), 0), mapping)
@@ -611,15 +647,17 @@ def outcomes(E, fn, mapping=None, chain=(), stack=()):
 
 
 def guards_of(E, e, prog=None):
-    """branch decisions under which effect e runs, in the terms of the entry function: the conditions dominating the
-    call inside its own function (and, for a closure, those around the place where the closure is created), with the
-    function's parameters replaced by what the call chain passed in.  [(Cond, substituted value, substituted subject)]"""
+    """branch decisions under which effect e runs, in the terms of the entry function: at every level of the call chain,
+    the conditions dominating the call inside its function (and, for a closure, those around the place where the closure
+    is created), with the function's parameters replaced by what the chain passed in.
+    [(Cond, [(substituted value, outcome)...], substituted subject)]"""
     from .guards import conditions_ctx
     out = []
-    fn = e.call.fn
-    for cd in conditions_ctx(E.prog, fn, e.call.bb, E.slicer):
-        m = e.mapping or {}
-        views = [(E.subst(v, m), oc) for v, oc in cd.views()] if cd.kind == 'bool' else [(E.subst(cd.value, m), cd.outcome)]
-        subj = E.subst(cd.subject, m) if cd.subject is not None else None
-        out.append((cd, views, subj))
+    levels = [(l.call, l.mapping) for l in e.chain if isinstance(l, Link)] + [(e.call, e.mapping)]
+    for call, m in levels:
+        m = m or {}
+        for cd in conditions_ctx(E.prog, call.fn, call.bb, E.slicer):
+            views = [(E.subst(v, m), oc) for v, oc in cd.views()] if cd.kind == 'bool' else [(E.subst(cd.value, m), cd.outcome)]
+            subj = E.subst(cd.subject, m) if cd.subject is not None else None
+            out.append((cd, views, subj))
     return out
